@@ -168,16 +168,9 @@ pub fn diff_items(
                     ));
                 }
             }
-            (RefItem::Err(e), RealItem::ErrRuntime(text)) if !matches!(e, RefErr::Driver { .. }) => {
-                // the text should name the signal for Z/X reads
-                if let RefErr::ReadZX(n) | RefErr::VirtualZX(n) = e {
-                    if asp.kinds && !text.contains(n.as_str()) {
-                        return Some(Finding::new(
-                            "error-names-wrong-signal",
-                            format!("item {k}: error text {text:?} does not name {n}"),
-                        ));
-                    }
-                }
+            (RefItem::Err(e), RealItem::ErrRuntime(_)) if !matches!(e, RefErr::Driver { .. }) => {
+                // the properties require *an error item* here; which signal its text names
+                // is not prescribed (several operands may be Z/X at once)
             }
             (want, got) => {
                 return Some(Finding::new(
@@ -309,6 +302,267 @@ fn diff_row(
                     format!("row {k}: vars() = {:?}, prescribed {:?}", other, want.vars),
                 ))
             }
+        }
+    }
+    None
+}
+
+// ------------------------------------------------------------------------------------------
+// C02: driver protocol
+
+fn call_vs_row_inputs(real: &RealTrace, call: &RealCall, row: &RealRow) -> bool {
+    call.inputs.len() == row.inputs.len()
+        && call.inputs.iter().zip(&row.inputs).all(|(c, r)| {
+            real.signals.get(r.0).map(|s| s.name == c.1).unwrap_or(false) && c.2 == r.1 && c.3 == r.2
+        })
+}
+
+pub fn protocol(rf: &RefTrace, real: &RealTrace) -> Option<Finding> {
+    if matches!(real.construct, Construct::NotReached | Construct::Panic(_)) {
+        return None;
+    }
+    // 1. constructor: exactly one output-reading call with every input-capable signal at default
+    if real.construct_calls != 1 {
+        return Some(Finding::new(
+            "ctor-call-count",
+            format!("constructor made {} driver calls", real.construct_calls),
+        ));
+    }
+    let c0 = &real.calls[0];
+    if !c0.reads {
+        return Some(Finding::new("ctor-call-kind", "constructor used the write-only call"));
+    }
+    let got0: Vec<(usize, InVal)> = c0.inputs.iter().map(|i| (i.0, i.2)).collect();
+    if got0 != rf.calls[0].inputs {
+        return Some(Finding::new(
+            "ctor-inputs",
+            format!("constructor sent {:?}, prescribed defaults {:?}", c0.inputs, rf.calls[0].inputs),
+        ));
+    }
+    if c0.inputs.iter().any(|i| i.3) {
+        return Some(Finding::new("ctor-changed", format!("default vector flagged changed: {:?}", c0.inputs)));
+    }
+    // 2. per step accounting
+    let mut expect_from = real.construct_calls;
+    let mut ended = false;
+    for (k, st) in real.steps.iter().enumerate() {
+        if st.calls.0 != expect_from {
+            return Some(Finding::new("call-log-gap", format!("step {k}: call range {:?} does not start at {expect_from}", st.calls)));
+        }
+        let n = st.calls.1 - st.calls.0;
+        expect_from = st.calls.1;
+        if ended {
+            if !matches!(st.item, RealItem::End) || n != 0 {
+                return Some(Finding::new(
+                    "after-end",
+                    format!("step {k} after end of iteration: item {:?}, {n} driver calls", brief_real(&st.item)),
+                ));
+            }
+            continue;
+        }
+        match &st.item {
+            RealItem::Row(row) => {
+                if n != 1 {
+                    return Some(Finding::new("calls-per-row", format!("step {k}: row produced with {n} driver calls")));
+                }
+                let call = &real.calls[st.calls.0];
+                if !call_vs_row_inputs(real, call, row) {
+                    return Some(Finding::new(
+                        "call-differs-from-row",
+                        format!("step {k}: driver received {:?} but row.inputs = {:?}", call.inputs, row.inputs),
+                    ));
+                }
+                if let Some(RefItem::Row(want)) = rf.items.get(k) {
+                    if call.reads != want.checked {
+                        return Some(Finding::new(
+                            "call-kind",
+                            format!("step {k}: prescribed checked={}, crate used {} call", want.checked, if call.reads { "output-reading" } else { "write-only" }),
+                        ));
+                    }
+                    if !want.checked && !row.outputs.is_empty() {
+                        return Some(Finding::new("midclock-outputs", format!("step {k}: mid-clock row carries outputs {:?}", row.outputs)));
+                    }
+                    // device-side vector equals the prescribed one
+                    let got: Vec<(usize, InVal)> = call.inputs.iter().map(|i| (i.0, i.2)).collect();
+                    if let Some(wc) = rf.calls.get(want.call) {
+                        if got != wc.inputs {
+                            return Some(Finding::new(
+                                "device-vector",
+                                format!("step {k}: device received {:?}, prescribed {:?}", got, wc.inputs),
+                            ));
+                        }
+                    }
+                }
+            }
+            RealItem::ErrDriver { nonce, call } => {
+                if n != 1 {
+                    return Some(Finding::new("calls-per-driver-error", format!("step {k}: driver error item with {n} calls")));
+                }
+                let c = &real.calls[st.calls.0];
+                if c.err_nonce != Some(*nonce) || *call != st.calls.0 {
+                    return Some(Finding::new(
+                        "driver-error-identity",
+                        format!("step {k}: error item carries nonce {nonce} call {call}; the failing call was #{} nonce {:?}", st.calls.0, c.err_nonce),
+                    ));
+                }
+            }
+            RealItem::ErrRuntime(_) => {
+                if n > 1 {
+                    return Some(Finding::new("calls-per-runtime-error", format!("step {k}: runtime error item with {n} calls")));
+                }
+            }
+            RealItem::End => {
+                if n != 0 {
+                    return Some(Finding::new("calls-at-end", format!("step {k}: end of iteration made {n} driver calls")));
+                }
+                ended = true;
+            }
+            RealItem::Panic(_) => return None,
+        }
+    }
+    if expect_from != real.calls.len() {
+        return Some(Finding::new(
+            "unaccounted-calls",
+            format!("{} driver calls logged, {} accounted for", real.calls.len(), expect_from),
+        ));
+    }
+    None
+}
+
+// ------------------------------------------------------------------------------------------
+// C03: attribution and verdict rules, decided from the observed history alone
+
+pub fn check_rule(exp: ExpVal, out: OutVal) -> bool {
+    match (exp, out) {
+        (ExpVal::X, _) => true,
+        (ExpVal::Z, OutVal::Z) => true,
+        (ExpVal::V(a), OutVal::V(b)) => a == b,
+        _ => false,
+    }
+}
+
+pub fn attribution(cfg: &[Sig], real: &RealTrace) -> Option<Finding> {
+    let outsigs: Vec<usize> = real
+        .signals
+        .iter()
+        .enumerate()
+        .filter(|(_, s)| s.kind != "in")
+        .map(|(i, _)| i)
+        .collect();
+    for (k, st) in real.steps.iter().enumerate() {
+        let RealItem::Row(row) = &st.item else { continue };
+        if row.outputs.is_empty() {
+            continue;
+        }
+        let got_sigs: Vec<usize> = row.outputs.iter().map(|o| o.0).collect();
+        if got_sigs != outsigs {
+            return Some(Finding::new(
+                "outputs-signal-list",
+                format!("row {k}: outputs are for signals {:?}, output-capable/virtual signals are {:?}", got_sigs, outsigs),
+            ));
+        }
+        if st.calls.1 != st.calls.0 + 1 {
+            continue; // C02's business
+        }
+        let call = &real.calls[st.calls.0];
+        let Some(ans) = &call.answer else { continue };
+        for (pos, (si, out, exp, chk, is_chk)) in row.outputs.iter().enumerate() {
+            let s = &real.signals[*si];
+            if s.kind != "virtual" {
+                // what did the device report for this very signal in this very call?
+                let reported: Vec<OutVal> = ans
+                    .iter()
+                    .filter(|(ci, _)| {
+                        cfg.get(*ci).map(|c| c.name == s.name).unwrap_or(false)
+                    })
+                    .map(|(_, v)| *v)
+                    .collect();
+                let want = reported.first().copied().unwrap_or(OutVal::X);
+                if *out != want {
+                    return Some(Finding::new(
+                        "output-attribution",
+                        format!("row {k}: signal {} reported as {:?}; the device answered {:?} for it in this call (answer {:?})", s.name, out, reported, ans),
+                    ));
+                }
+            }
+            if *chk != check_rule(*exp, *out) {
+                return Some(Finding::new("check-rule", format!("row {k} entry {pos}: check()={chk} for expected {exp:?} output {out:?}")));
+            }
+            if *is_chk != (*exp != ExpVal::X) {
+                return Some(Finding::new("is-checked-rule", format!("row {k} entry {pos}: is_checked()={is_chk} for expected {exp:?}")));
+            }
+        }
+        let want_fail: Vec<usize> = row
+            .outputs
+            .iter()
+            .enumerate()
+            .filter(|(_, o)| !check_rule(o.2, o.1))
+            .map(|(i, _)| i)
+            .collect();
+        if want_fail != row.failing {
+            return Some(Finding::new(
+                "failing-outputs",
+                format!("row {k}: failing_outputs() = {:?}, entries not passing = {:?}", row.failing, want_fail),
+            ));
+        }
+    }
+    None
+}
+
+// ------------------------------------------------------------------------------------------
+// C06: binding by header name, complete vectors, `changed`
+
+pub fn binding_structure(case: &Case, real: &RealTrace) -> Option<Finding> {
+    let insigs: Vec<usize> = real
+        .signals
+        .iter()
+        .enumerate()
+        .filter(|(_, s)| s.kind == "in" || s.kind == "bidir")
+        .map(|(i, _)| i)
+        .collect();
+    // configured signals come first in TestCase.signals, in the order given
+    for (i, s) in case.signals.iter().enumerate() {
+        if real.signals.get(i).map(|r| r.name.as_str()) != Some(s.name.as_str()) {
+            return Some(Finding::new(
+                "signal-list-order",
+                format!("TestCase.signals[{i}] = {:?}, configured {:?}", real.signals.get(i), s.name),
+            ));
+        }
+    }
+    let mut prev: Option<Vec<(String, InVal)>> = real
+        .calls
+        .first()
+        .map(|c| c.inputs.iter().map(|i| (i.1.clone(), i.2)).collect());
+    for (k, st) in real.steps.iter().enumerate() {
+        let RealItem::Row(row) = &st.item else { continue };
+        let got: Vec<usize> = row.inputs.iter().map(|i| i.0).collect();
+        if got != insigs {
+            return Some(Finding::new(
+                "inputs-signal-list",
+                format!("row {k}: inputs are for signals {:?}, input-capable signals are {:?}", got, insigs),
+            ));
+        }
+        for (si, v, changed) in &row.inputs {
+            let name = &real.signals[*si].name;
+            let in_header = case.program.header.iter().any(|h| h == name);
+            if *changed && !in_header {
+                return Some(Finding::new("changed-on-omitted", format!("row {k}: input {name} is not in the header but flagged changed")));
+            }
+            if !*changed {
+                if let Some(p) = &prev {
+                    let pv = p.iter().find(|(n, _)| n == name).map(|x| x.1);
+                    if pv != Some(*v) {
+                        return Some(Finding::new(
+                            "unchanged-but-differs",
+                            format!("row {k}: input {name}={v:?} flagged unchanged, previous vector had {pv:?}"),
+                        ));
+                    }
+                }
+            }
+        }
+        // the previous vector is the one the driver received for this row
+        if st.calls.1 > st.calls.0 {
+            prev = Some(real.calls[st.calls.1 - 1].inputs.iter().map(|i| (i.1.clone(), i.2)).collect());
         }
     }
     None
